@@ -269,8 +269,9 @@ static void run_groupcount(void)
 	/* first patterns that hold '(' or ')' as ordinary characters (escaped, or inside a bracket expression, also
 	 * after a negation, a class name or a leading ']'), some with real groups next to them; none matches "bc" */
 	static const char *first[] = {"\\(a", "a\\)", "[(]a", "[)]a", "[()]a", "[^(]x", "[^)b]x", "[[:alpha:](]x", "[](]x", "[^](]x",
-		"\\[(x)", "\\\\(x)", "(x)[(]", "[(](x)", "\\((x)\\)", "[[:digit:]()]", "x[(](y)[)]", "[a(-)]x"};
-	static const int real_groups[] = {0, 0, 0, 0, 0, 0, 0, 0, 0, 0, 1, 1, 1, 1, 1, 0, 1, 0};
+		"\\[(x)", "\\\\(x)", "(x)[(]", "[(](x)", "\\((x)\\)", "[[:digit:]()]", "x[(](y)[)]", "[a(-)]x",
+		"[[=a=](]x", "[^[:alpha:](]x", "[x[:digit:])(]y"};
+	static const int real_groups[] = {0, 0, 0, 0, 0, 0, 0, 0, 0, 0, 1, 1, 1, 1, 1, 0, 1, 0, 0, 0, 0};
 	unsigned i;
 	int icase;
 	if (nv_shard != 0)
